@@ -241,9 +241,10 @@ def run_shard(shard, tier, seed, acc) -> None:
             else:
                 setattr(obj, fld, val)
                 state[{"enc_content": "content", "enc_cek": "cek", "enc_content_parameters": "cp", "enc_cek_parameters": "kp"}[fld]] = val
-            for in_env in (True, False):
+            # the same object packed several times in a row in alternating layouts (every transition T->F, F->T, T->T, F->F occurs)
+            for j_, in_env in enumerate((True, False, True, True, False, False, True)):
                 acc.ev()
-                acc.nt(("repack", i_, in_env))
+                acc.nt(("repack", i_, j_, in_env))
                 ref = cms.encode(ref_blob(state["kid"], state["sid"], state["cek"], state["content"], state["cp"], state["kp"], in_env))
                 try:
                     got = bytes(obj.pack(blob_in_envelope=in_env))
@@ -251,9 +252,24 @@ def run_shard(shard, tier, seed, acc) -> None:
                     acc.violate(f"repack.exc.{type(e).__name__}", ["repack", i_, fld, in_env], {"exc": repr(e)})
                     continue
                 if got != ref:
-                    acc.violate("repack-after-mutation.bytes", ["repack", i_, fld, in_env], {"lens": [len(got), len(ref)]})
+                    acc.violate("repack-after-mutation.bytes", ["repack", i_, fld, in_env], {"lens": [len(got), len(ref)], "pack_call_in_this_step": j_})
                 else:
                     acc.outcome("repack-ok")
+            # ... and an object that came out of unpack(), packed in the trailing layout first
+            from dpapi_ng._blob import DPAPINGBlob
+
+            for first_env in (True, False):
+                src = cms.encode(ref_blob(state["kid"], state["sid"], state["cek"], state["content"], state["cp"], state["kp"], first_env))
+                try:
+                    o2 = DPAPINGBlob.unpack(src)
+                    outs = [bytes(o2.pack(blob_in_envelope=e_)) for e_ in (False, True, False, True)]
+                except Exception as e:  # noqa: BLE001
+                    acc.violate(f"repack.unpacked.exc.{type(e).__name__}", ["repack", i_, fld, first_env, "unpacked"], {"exc": repr(e)})
+                    continue
+                acc.ev()
+                want = [cms.encode(ref_blob(state["kid"], state["sid"], state["cek"], state["content"], state["cp"], state["kp"], e_)) for e_ in (False, True, False, True)]
+                if outs != want:
+                    acc.violate("repack-unpacked.bytes", ["repack", i_, fld, first_env, "unpacked"], {"equal": [a_ == b_ for a_, b_ in zip(outs, want)]})
     elif fam == "pairs":
         lens = [0, 1, 127, 128, 256, 65536] if tier == "quick" else [0, 1, 16, 111, 112, 127, 128, 255, 256, 65535, 65536]
         for L, ki, nm, sid in itertools.product(lens, (0, 32, 128, 800), NAMES[::2], SIDS[:3]):
